@@ -46,12 +46,12 @@ import (
 // constants of the reference model (from the property text and its anchors)
 
 const (
-	refTTL        = 2000 // keep-alive lifetime in blocks
-	refGrace      = 30   // grace period in blocks after unjailing
-	refSweepEvery = 10   // periodic liveness check
-	blockTime     = 2 * time.Second
-	stakeUnit     = 1_000_000 // one consensus power unit (sdk.DefaultPowerReduction)
-	nVals         = 4
+	refTTL         = 2000 // keep-alive lifetime in blocks
+	refGrace       = 30   // grace period in blocks after unjailing
+	refSweepEvery  = 10   // periodic liveness check
+	blockTime      = 2 * time.Second
+	powerReduction = 1_000_000 // sdk.DefaultPowerReduction: consensus power = tokens / 10^6, truncated
+	nVals          = 4
 )
 
 var refSchedule = []time.Duration{time.Minute, 5 * time.Minute, 15 * time.Minute, time.Hour, 24 * time.Hour}
@@ -66,6 +66,14 @@ type job struct {
 	Name   string   `json:"name"`
 	Addrs  []string `json:"addrs"` // hex, 20 bytes each; empty = keyed validators
 	Stakes []int64  `json:"stakes"`
+	Unit   int64    `json:"unit"` // ugrain per stake unit (0 = 10^6 = one consensus power unit)
+}
+
+func (j job) unit() int64 {
+	if j.Unit == 0 {
+		return powerReduction
+	}
+	return j.Unit
 }
 
 func (j job) String() string {
@@ -113,24 +121,65 @@ func groups(thorough bool) (gs [][]string, names []string) {
 
 func rotate2(a []string) []string { return []string{a[2], a[3], a[0], a[1]} }
 
+// boundary stake vectors: probe "more than 25 % of bonded power" from both
+// sides. (2501,2500,2500,2499)x10^6: 25.01 % protected, 25.00 % and 24.99 % not.
+// (251,250,250,249)x10^5: by tokens 25.1 % / 25.0 % / 24.9 %, by (truncated)
+// consensus power (25,25,25,24)/99 = 25.25 % / 25.25 % / 24.24 %.
+var (
+	boundaryA = []int64{2501, 2500, 2500, 2499}
+	boundaryB = []int64{251, 250, 250, 249}
+)
+
+func svName(sv []int64, unit int64) string {
+	n := fmt.Sprintf("s%d-%d-%d-%d", sv[0], sv[1], sv[2], sv[3])
+	if unit != 0 && unit != powerReduction {
+		n += fmt.Sprintf("u%d", unit)
+	}
+	return n
+}
+
+// jobs of a tier. Slot 0 of rotation 0 holds the 0x00 pattern address, the
+// smallest operator address, i.e. the first validator the liveness check
+// visits: in the boundary vectors that is the validator just above 25 %.
+//
+//	quick:    rotation 0: the three stake vectors and boundaryA for every group and
+//	          the keyed run, boundaryB for group p0 and the keyed run;
+//	          rotation 1: (60,20,10,10) only
+//	thorough: rotations 0 and 1 x three stake vectors for every group; boundaryA
+//	          for every group (rotation 0), boundaryB for multi, p0, p10, keyed
 func jobs(thorough bool) []job {
 	var out []job
 	gs, names := groups(thorough)
-	// decisive jobs first: comma address in the 10 % slot
-	for rot := 0; rot < 2; rot++ {
-		for _, sv := range stakeVectors {
-			for gi, g := range gs {
-				a := g
-				if rot == 1 {
-					a = rotate2(g)
-				}
-				out = append(out, job{Name: fmt.Sprintf("%s.r%d.s%d-%d-%d-%d", names[gi], rot, sv[0], sv[1], sv[2], sv[3]), Addrs: a, Stakes: sv})
-			}
+	add := func(name string, addrs []string, sv []int64, unit int64) {
+		out = append(out, job{Name: name + "." + svName(sv, unit), Addrs: addrs, Stakes: sv, Unit: unit})
+	}
+	for gi, g := range gs {
+		add(names[gi]+".r0", g, stakeVectors[0], 0)
+	}
+	for gi, g := range gs {
+		add(names[gi]+".r0", g, boundaryA, 0)
+	}
+	add("keyed", nil, boundaryA, 0)
+	for gi, g := range gs {
+		if n := names[gi]; n == "p0" || (thorough && (n == "multi" || n == "p10")) {
+			add(n+".r0", g, boundaryB, 100_000)
 		}
-		if rot == 0 {
-			for _, sv := range stakeVectors {
-				out = append(out, job{Name: fmt.Sprintf("keyed.s%d-%d-%d-%d", sv[0], sv[1], sv[2], sv[3]), Stakes: sv})
-			}
+	}
+	add("keyed", nil, boundaryB, 100_000)
+	for _, sv := range stakeVectors[1:] {
+		for gi, g := range gs {
+			add(names[gi]+".r0", g, sv, 0)
+		}
+	}
+	for _, sv := range stakeVectors {
+		add("keyed", nil, sv, 0)
+	}
+	for si, sv := range stakeVectors {
+		if si > 0 && !thorough {
+			break
+		}
+		for gi, g := range gs {
+			add(names[gi]+".r1", rotate2(g), sv, 0)
 		}
 	}
 	return out
@@ -204,35 +253,46 @@ func (e *env) observe(ctx sdk.Context) (o [nVals]vobs) {
 	return o
 }
 
-// protection under the property's rule, strictest and most lenient reading.
-// B = bonded and unjailed validators, T their tokens.
-func active(o [nVals]vobs) (n int, total int64) {
+// protection under the property's rule "holds more than 25 % of bonded power
+// or is the last active validator", computed exactly in integers (4p > T).
+// The text leaves open (a) whether power means tokens or consensus power
+// (tokens / 10^6, truncated, which is what Keeper.Jail uses), (b) whether the
+// bonded total includes validators whose status is still Bonded although they
+// are jailed (Keeper.Jail excludes them), (c) how a validator that is not
+// bonded itself is counted. surelyProtected = protected under every reading,
+// possiblyProtected = under at least one.
+type totals struct {
+	n                              int // bonded and unjailed validators
+	tokMin, tokMax, powMin, powMax int64
+}
+
+func active(o [nVals]vobs) (t totals) {
 	for _, x := range o {
-		if x.Status == stakingtypes.Bonded && !x.Jailed {
-			n++
-			total += x.Tokens
+		if x.Status != stakingtypes.Bonded {
+			continue
+		}
+		t.tokMax += x.Tokens
+		t.powMax += x.Tokens / powerReduction
+		if !x.Jailed {
+			t.n++
+			t.tokMin += x.Tokens
+			t.powMin += x.Tokens / powerReduction
 		}
 	}
 	return
 }
 
-// surelyProtected: protected under every reading (a validator that is not
-// bonded holds no bonded power, so it is never surely protected).
 func surelyProtected(o [nVals]vobs, v int) bool {
-	n, t := active(o)
-	in := o[v].Status == stakingtypes.Bonded && !o[v].Jailed
-	if !in {
-		return false
+	t := active(o)
+	if o[v].Status != stakingtypes.Bonded || o[v].Jailed {
+		return false // holds no bonded power under one reading
 	}
-	return n == 1 || 4*o[v].Tokens > t
+	return t.n == 1 || (4*o[v].Tokens > t.tokMax && 4*(o[v].Tokens/powerReduction) > t.powMax)
 }
 
-// possiblyProtected: protected under at least one reading (share computed with
-// or without the validator's own tokens in the denominator; "last active" read
-// as "at most one bonded unjailed validator exists").
 func possiblyProtected(o [nVals]vobs, v int) bool {
-	n, t := active(o)
-	return n <= 1 || 4*o[v].Tokens > t
+	t := active(o)
+	return t.n <= 1 || 4*o[v].Tokens > t.tokMin || 4*(o[v].Tokens/powerReduction) > t.powMin
 }
 
 func (e *env) minVersion(ctx sdk.Context) string {
@@ -701,7 +761,7 @@ func (e *env) hash(n *explore.Node) string {
 func newEnv(r *report.Run, j job, rich bool) *env {
 	cfg := world.Config{}
 	for _, s := range j.Stakes {
-		cfg.Stakes = append(cfg.Stakes, world.StakesOf(s * stakeUnit)[0])
+		cfg.Stakes = append(cfg.Stakes, world.StakesOf(s * j.unit())[0])
 	}
 	for _, a := range j.Addrs {
 		b, err := hex.DecodeString(a)
@@ -749,7 +809,7 @@ func newEnv(r *report.Run, j job, rich bool) *env {
 	for _, v := range w.Vals {
 		as = append(as, fmt.Sprintf("%x", []byte(v.ValAddr)))
 	}
-	e.desc = fmt.Sprintf("addresses %s stakes %v", strings.Join(as, ","), j.Stakes)
+	e.desc = fmt.Sprintf("addresses %s stakes %v x %d ugrain", strings.Join(as, ","), j.Stakes, j.unit())
 	return e
 }
 
@@ -890,7 +950,7 @@ func items(thorough bool) []item {
 	var out []item
 	for ji, j := range jobs(thorough) {
 		it := item{Job: ji, NSub: 1, Depth: 4}
-		ladderJob := strings.HasPrefix(j.Name, "multi.r0.") || strings.HasPrefix(j.Name, "keyed.")
+		ladderJob := (strings.HasPrefix(j.Name, "multi.r0.") || strings.HasPrefix(j.Name, "keyed.")) && j.Stakes[0] <= 60
 		if ladderJob {
 			it.LDepth, it.KMax = 3, 4
 		}
@@ -989,12 +1049,12 @@ func setRule(r *report.Run) {
 	if r.Thorough() {
 		depth, ldepth = "4 (byte-0 address group: depth 6 for (60,20,10,10), depth 5 with the rich alphabet for the other two stake vectors)", "4"
 	}
-	r.Rule = fmt.Sprintf("per (address set of 4 operator addresses, stake vector): BFS to depth %s from three initial nodes at block 2999 (keep-alives expiring at 3009; staggered 3009/3009/3011/3010; v3 jailed since block 2990) and, for the multi-comma and keyed jobs, to depth %s from ladder seeds (v3 jailed 1..k times in succession, k <= 4 or 6) over KeepAlive(v,{min,below,above}) through the real message server (signed txs for the keyed runs), Jail(v) (valset keeper), SJail(v) (slashing keeper), Unjail(v) (slashing keeper as MsgUnjail), Adv1, AdvTo10 (through the next liveness check), Adv31, Adv2000 (only among the first 2 operations of a path), RaiseMin (once)/LowerMin through the valset governance handler; base alphabet: SJail for v0,v1 only, one Adv2000; rich alphabet: SJail for every validator, SchedRaise, two RaiseMin, two Adv2000; every block runs the staking end-blocker, the valset EndBlock and the valset BeginBlock of the real application and the oracle; address sets: base 0x55*20 with byte p set to 0x00/0xff/0x2b/0x2c plus multi-comma addresses, two slot rotations; stake vectors (60,20,10,10),(30,30,30,10),(1,1,1,1) x 10^6 ugrain", depth, ldepth)
+	r.Rule = fmt.Sprintf("per (address set of 4 operator addresses, stake vector): BFS to depth %s from three initial nodes at block 2999 (keep-alives expiring at 3009; staggered 3009/3009/3011/3010; v3 jailed since block 2990) and, for the multi-comma and keyed jobs, to depth %s from ladder seeds (v3 jailed 1..k times in succession, k <= 4 or 6) over KeepAlive(v,{min,below,above}) through the real message server (signed txs for the keyed runs), Jail(v) (valset keeper), SJail(v) (slashing keeper), Unjail(v) (slashing keeper as MsgUnjail), Adv1, AdvTo10 (through the next liveness check), Adv31, Adv2000 (only among the first 2 operations of a path), RaiseMin (once)/LowerMin through the valset governance handler; base alphabet: SJail for v0,v1 only, one Adv2000; rich alphabet: SJail for every validator, SchedRaise, two RaiseMin, two Adv2000; every block runs the staking end-blocker, the valset EndBlock and the valset BeginBlock of the real application and the oracle; address sets: base 0x55*20 with byte p set to 0x00/0xff/0x2b/0x2c plus multi-comma addresses, two slot rotations; stake vectors (60,20,10,10),(30,30,30,10),(1,1,1,1),(2501,2500,2500,2499) x 10^6 ugrain and (251,250,250,249) x 10^5 ugrain (25 % protection boundary from both sides)", depth, ldepth)
 	r.Assumptions = []string{
 		"block time fixed at 2 s; only the staking end-blocker and the valset begin/end-block run per block (the other modules' end-blockers do not touch keep-alive, grace or jail-log state)",
 		"keep-alive boundary: a validator must be jailed only at checks with height > aliveUntil and must never be jailed at checks with height < aliveUntil; height == aliveUntil is left open (weaker reading of 'longer than the lifetime')",
 		"grace period: the 30 blocks following the block U in which the validator was unjailed; the obligation to jail starts at checks with H-U >= 31 (any unjail event counts, also one in the same block as the jailing); the clause 'not jailed for inactivity at H-U <= 30' is taken from the documented constant and applies only when the validator was jailed at the end of the previous block",
-		"protection: must-jail is required only if the validator is unprotected under every reading, evaluated on the state after the check (own tokens in or out of the denominator; at most one bonded unjailed validator counts as 'last active'); jailing is forbidden only if protected under every reading (a validator that is not bonded holds no bonded power)",
+		"protection ('more than 25 % of bonded power', exact integer test 4p > T): readings differ in the power notion (tokens, or consensus power = tokens/10^6 truncated as Keeper.Jail uses), in whether the total includes validators still in status Bonded although jailed, and in how a validator that is not bonded is counted; must-jail is required only if the validator is unprotected under every reading, evaluated on the state after the check (at most one bonded unjailed validator counts as 'last active'); jailing (by the check or by Keeper.Jail) is forbidden only if protected under every reading",
 		"sentence reset threshold: code says max(30 min, 1.05 d), its comment says +20 %; between the two thresholds both the next step and the reset are accepted",
 		"a keep-alive with a version >= the minimum from an existing validator must be accepted (otherwise a responsive validator could be jailed)",
 		"state hash drops ContactedAt/PigeonVersion of keep-alive records (only read by the GetAlivePigeons query) and the valset snapshot/external-chain-info prefixes (not read by the keep-alive, grace or jailing code)",
